@@ -141,6 +141,8 @@ def stp_sel(ver):
         return fseq(STP_BASE + [STP_CERTS])
     if ver == 2:
         return fseq(STP_BASE + [STP_CERTS, STP_B1, STP_B2, Var(2)])
+    if ver == 3:
+        return fseq(STP_BASE + [STP_CERTS, STP_B1, STP_B2, Var(2), Var(1)])
     return FAIL
 
 
@@ -617,16 +619,22 @@ def build_table():
 
     def stp_build(tv):
         o = M.SessionTicketPayload()
-        f = untup(tv.v, {0: 6, 1: 7, 2: 10}[tv.t])
+        f = untup(tv.v, {0: 6, 1: 7, 2: 10, 3: 11}[tv.t])
+        v2 = tv.t >= 2
         o.create(ba(f[0]), (f[1], f[2]), f[3], f[5], ba(f[4]), None,
-                 bool(f[7]) if tv.t == 2 else False, bool(f[8]) if tv.t == 2 else False,
-                 ba(f[9]) if tv.t == 2 else bytearray())
+                 bool(f[7]) if v2 else False, bool(f[8]) if v2 else False,
+                 ba(f[9]) if v2 else bytearray(),
+                 **({'srp_username': ba(f[10])} if tv.t == 3 else {}))
+        # create() derives the version from which optional data is present; the layout version and the
+        # certificate entries (with their extensions) are set as given
         o.version = tv.t
         if tv.t >= 1:
             o._cert_chain = [M.CertificateEntry(x509).create(X509s([d]).x509List[0], exts_build('CtxCert', ex))
                              for d, ex in f[6]]
-        if tv.t == 2:
+        if v2:
             o.encrypt_then_mac, o.extended_master_secret, o.server_name = bool(f[7]), bool(f[8]), ba(f[9])
+        if tv.t == 3:
+            o.srp_username = ba(f[10])
         return o
 
     def stp_view(o):
@@ -636,9 +644,11 @@ def build_table():
             f.append([cert_entry_view(e) for e in o._cert_chain])
         if o.version >= 2:
             f += [int(o.encrypt_then_mac), int(o.extended_master_secret), B(o.server_name)]
+        if o.version >= 3:
+            f.append(B(o.srp_username))
         return Tagged(o.version, tup(f))
-    add('SessionTicketPayload', 'fmt_SessionTicketPayload', ('Tag', 2, stp_sel, [0, 1, 2]), M.SessionTicketPayload,
-        stp_build, stp_view, whole=True, reject=(ValueError,), ext_ctx='CtxCert')
+    add('SessionTicketPayload', 'fmt_SessionTicketPayload', ('Tag', 2, stp_sel, [0, 1, 2, 3, 3]), M.SessionTicketPayload,
+        stp_build, stp_view, whole=True, reject=(ValueError,), ext_ctx='CtxCert', weight=2)
 
     # ---- irregular layouts
     def cc_gen(rng):
